@@ -75,13 +75,13 @@ def num_used_field(paths):
     return fields
 
 
-def e3_capacity(F, R, M, add_id):
+def e3_capacity(F, R, M, add_id, rule='E3', rule1='E1'):
     sg = supergraph(F, add_id, opaque=loop_opaque, tag='loopopaque')
     where = fn_site(F, add_id)
     try:
         paths = PathEnum(sg).run()
     except PathLimit as e:
-        R.abstain('E3', add_id, str(e), where)
+        R.abstain(rule, add_id, str(e), where)
         return
     R.count('add_paths', len(paths))
     fields = num_used_field(paths)
@@ -89,7 +89,7 @@ def e3_capacity(F, R, M, add_id):
     ctr = [f for f in fields if f not in bool_fields]
     flg = [f for f in fields if f in bool_fields]
     if len(ctr) != 1:
-        R.abstain('E3', add_id, 'cannot identify the in-use counter among %s' % fields, where)
+        R.abstain(rule, add_id, 'cannot identify the in-use counter among %s' % fields, where)
         return
     ctr = ctr[0]
     # which opaque callee is the indirect form: the one whose body leaks a box
@@ -104,7 +104,7 @@ def e3_capacity(F, R, M, add_id):
         ev = err_variant(p.ret)
         if ev and ev not in ('Ok',):
             eff = [e for e in p.effects if e[0] == 'store' or (e[0] == 'call' and (e[4].get('trait') == HAL or e[4].get('local') and not e[2].startswith('core::')))]
-            R.check(not eff, 'E1', '%s:%s' % (add_id, ev), where, 'refusal %s is effect-free' % ev,
+            R.check(not eff, rule1, '%s:%s' % (add_id, ev), where, 'refusal %s is effect-free' % ev,
                     'refusal path returning %s has side effects: %s' % (ev, [fmt(e[2]) if e[0] == 'store' else e[2] for e in eff][:3]))
     rows = 0
     bad = None
@@ -179,11 +179,11 @@ def e3_capacity(F, R, M, add_id):
     except StopIteration:
         pass
     except Unfoldable as e:
-        R.abstain('E3', add_id, 'cannot fold capacity predicate: %s' % e, where)
+        R.abstain(rule, add_id, 'cannot fold capacity predicate: %s' % e, where)
         return
     R.tables += rows
     R.count('capacity_rows', rows if bad is None else 100000)
-    R.check(bad is None, 'E3', '%s:capacity' % add_id, where,
+    R.check(bad is None, rule, '%s:capacity' % add_id, where,
             'refusal predicate and submission form agree with the specification on %d rows (SIZE<=16)' % rows,
             'capacity predicate disagrees with the specification: %s' % bad)
 
